@@ -199,3 +199,165 @@ func verifControlReadBeforeWait[T any]() func(Observable[T]) Observable[T] {
 	}
 }
 `
+
+// LOOP-STOPS-AFTER-ERROR: a re-subscribing loop does not go on after it forwarded an error.
+func ruleLoopStopsAfterError() check.Rule {
+	return check.Rule{
+		Name:        "LOOP-STOPS-AFTER-ERROR",
+		NeedControl: true,
+		Doc:         "when an operator subscribes its sources one after the other in a loop, waiting for each (`sub.Wait()`), and the error callback of an attempt forwards the Error to the destination — which ends the output — the loop has an exit that this error takes: a `break` / `return` (or the loop condition) that tests the destination's closed state, a variable the error callback writes, or the closed state of a subscription the error callback unsubscribes. Otherwise the remaining sources are still subscribed, one after the other, after the output has failed: their side effects run although nobody can receive their notifications",
+		Run: func(c *check.Ctx) {
+			m := c.M
+			n := 0
+			for _, sc := range m.SCs {
+				armed := c.Armed(sc)
+				info := sc.Pkg.TypesInfo
+				for _, s := range sc.SubSites {
+					if !s.InLoop || s.Src == nil || !s.Src.Awaited {
+						continue
+					}
+					// does the error slot of this attempt send the Error on?
+					forwards := false
+					for _, e := range sc.Emits {
+						if e.ToDest && e.Kind == model.EmitError && e.Ctx == s.Src && e.Slot == model.SlotError {
+							forwards = true
+						}
+					}
+					if !forwards {
+						continue
+					}
+					fn := innermostFunc(m, s.Pkg, s.Call)
+					var loop ast.Stmt
+					for cn := m.Parent(s.Pkg, s.Call); cn != nil && cn != fn; cn = m.Parent(s.Pkg, cn) {
+						switch l := cn.(type) {
+						case *ast.ForStmt:
+							if loop == nil {
+								loop = l
+							}
+						case *ast.RangeStmt:
+							if loop == nil {
+								loop = l
+							}
+						}
+					}
+					if loop == nil {
+						continue
+					}
+					n++
+					// what the error path changes
+					errWrites := map[types.Object]bool{}
+					errCloses := map[types.Object]bool{}
+					if s.Observer != nil && s.Observer.Kind == model.AVObserver {
+						if slot := s.Observer.Slots[model.SlotError]; slot != nil && slot.Lit != nil {
+							for _, w := range writesIn(info, slot.Lit) {
+								errWrites[w.Var] = true
+							}
+							ast.Inspect(slot.Lit.Body, func(x ast.Node) bool {
+								if call, ok := x.(*ast.CallExpr); ok {
+									if name, isSub := m.Obj.SubscriptionMethods[model.Callee(info, call)]; isSub && name == "Unsubscribe" {
+										if sel := callSelector(info, call); sel != nil {
+											if id, _ := rootIdent(sel.X); id != nil {
+												errCloses[objOf(info, id)] = true
+											}
+										}
+									}
+								}
+								return true
+							})
+						}
+					}
+					takesErrorExit := func(cond ast.Expr) bool {
+						if cond == nil {
+							return false
+						}
+						found := false
+						ast.Inspect(cond, func(x ast.Node) bool {
+							switch y := x.(type) {
+							case *ast.Ident:
+								if errWrites[objOf(info, y)] {
+									found = true
+								}
+							case *ast.CallExpr:
+								if sel := callSelector(info, y); sel != nil && sel.Sel.Name == "IsClosed" {
+									if id, _ := rootIdent(sel.X); id != nil {
+										o := objOf(info, id)
+										if (sc.Dest != nil && o == types.Object(sc.Dest)) || errCloses[o] {
+											found = true
+										}
+									}
+								}
+							}
+							return !found
+						})
+						return found
+					}
+					stops := false
+					if fs, ok := loop.(*ast.ForStmt); ok && takesErrorExit(fs.Cond) {
+						stops = true
+					}
+					var lbody *ast.BlockStmt
+					switch l := loop.(type) {
+					case *ast.ForStmt:
+						lbody = l.Body
+					case *ast.RangeStmt:
+						lbody = l.Body
+					}
+					ast.Inspect(lbody, func(x ast.Node) bool {
+						if _, ok := x.(*ast.FuncLit); ok {
+							return false
+						}
+						ifs, ok := x.(*ast.IfStmt)
+						if !ok || !takesErrorExit(ifs.Cond) {
+							return true
+						}
+						ast.Inspect(ifs.Body, func(y ast.Node) bool {
+							switch z := y.(type) {
+							case *ast.FuncLit:
+								return false
+							case *ast.BranchStmt:
+								if z.Tok == token.BREAK || z.Tok == token.GOTO {
+									stops = true
+								}
+							case *ast.ReturnStmt:
+								stops = true
+							}
+							return true
+						})
+						return true
+					})
+					key := fmt.Sprintf("%s/loop-stops-after-error", s.Key)
+					if stops {
+						if armed {
+							c.OK(key, s.Pos, "the loop has an exit taken after the attempt's error was forwarded")
+						}
+					} else {
+						c.Report(armed, key, loop.Pos(), "the error callback of the attempt subscribed at %s forwards the Error to the destination, but no exit of this loop tests the destination's closed state or anything that callback changes: the loop goes on subscribing the remaining sources after the output has failed", m.Prog.Rel(s.Call.Pos()))
+					}
+				}
+			}
+			c.Inc("awaited_loop_attempts_forwarding_errors", n)
+		},
+	}
+}
+
+const controlsLoopStops = `
+func verifControlLoopGoesOn[T any](obs ...Observable[T]) Observable[T] {
+	return NewUnsafeObservableWithContext(func(subscriberCtx context.Context, destination Observer[T]) Teardown {
+		subscriptions := NewSubscription(nil)
+		for i := range obs {
+			if subscriptions.IsClosed() {
+				break
+			}
+			sub := obs[i].SubscribeWithContext(subscriberCtx, NewObserverWithContext(
+				destination.NextWithContext,
+				destination.ErrorWithContext,
+				func(ctx context.Context) {},
+			))
+			subscriptions.AddUnsubscribable(sub)
+			sub.Wait()
+		}
+		destination.CompleteWithContext(subscriberCtx)
+		return subscriptions.Unsubscribe
+	})
+}
+`
